@@ -150,7 +150,7 @@ func runC19(cx *Ctx, r *Report) {
 	if len(sets) >= 1 {
 		p := sets[0]
 		f := p.Fn
-		key := p.Site.Common().Args[0]
+		key := storeArgs(p.Site)[0]
 		// counter reads in f: calls whose callee reads prefix 0x02
 		isCounterRead := func(v ssa.Value) bool {
 			c, ok := v.(*ssa.Call)
@@ -298,6 +298,12 @@ func runC19(cx *Ctx, r *Report) {
 				if len(ret.Results) == 1 && ret.Results[0] == kc.Call.Args[0] {
 					okRet = true
 				}
+			}
+		}
+		// through a prefix store the id itself is the (relative) key
+		for _, ret := range returnsOf(f) {
+			if len(ret.Results) == 1 && ret.Results[0] == key && len(storeArgs(p.Site)) != len(p.Site.Common().Args) {
+				okRet = true
 			}
 		}
 		r.check(okRet, "id-is-key", "0x01", cx.P.Pos(p.Site.Pos()), "the function returns the very id the stored key was built from", "the id returned by "+shortFn(f)+" is not the value used to build the stored key")
